@@ -10,6 +10,7 @@ import Dreye.Driver.Ops03
 import Dreye.Driver.Ops06
 import Dreye.Driver.Ops17
 import Dreye.Driver.Ops18
+import Dreye.Driver.Ops14
 namespace Dreye.Driver
-def allOps : List (String × Handler) := ops01 ++ ops02 ++ ops20 ++ ops19 ++ ops16 ++ ops05 ++ ops04 ++ ops03 ++ ops06 ++ ops17 ++ ops18
+def allOps : List (String × Handler) := ops01 ++ ops02 ++ ops20 ++ ops19 ++ ops16 ++ ops05 ++ ops04 ++ ops03 ++ ops06 ++ ops17 ++ ops18 ++ ops14
 end Dreye.Driver
